@@ -123,6 +123,26 @@ def cases():
                     'years and months duration(date(%s), date("2021-01-01"))' % q, 'matches(%s, "a")' % q, 'matches("a", %s)' % q, 'replace(%s, "a", "b")' % q, 'replace("abc", %s, "x")' % q,
                     'replace("abc", "b", %s)' % q, 'split(%s, "a")' % q, 'split("abc", %s)' % q, 'contains(%s, "a")' % q, 'string length(%s)' % q, 'upper case(%s)' % q, 'substring(%s, 1, 1)' % q,
                     'substring before(%s, "a")' % q, 'starts with(%s, "a")' % q, 'string(%s)' % q, '{%s: 1}' % q, '@%s' % q, '%s = %s' % (q, q), '%s < "a"' % q]
+    # ---- J: damaged expressions (C05: parsing is total): every expression of the case files under replay/cases with ONE token deleted and cut
+    # off after every token - an unbalanced bracket, a `between` without its `and`, an `if` without `else`, a dangling operator: an error, no panic
+    import glob, re as _re
+    tok = _re.compile(r'"(?:[^"\\]|\\.)*"|[A-Za-z_][A-Za-z_0-9]*|[0-9]+(?:\.[0-9]+)?|\.\.|<=|>=|!=|\*\*|->|[^\sA-Za-z_0-9]')
+    seen = set()
+    srcs = ['(1 between 2)', '[5 between 1]', '{a: 1 between 0} and 2', 'f(x, (2 between 1))', 'x between (1 and 2', 'for x in [1] return (x between 1)', '1 in (]', '[1..', 'if (a then b) else c',
+            'function(x) (x', '{a: [1, {b: (2}]}', 'some x in [1] satisfies (x', '1 between 2 and', ')', ']', '}', '(]', '[)', '{]', '1 between ) and 2', '(((1 between 2)))', 'x[1 between 2]', 'a.b(1 between 2)']
+    for f in sorted(glob.glob(os.path.join(os.path.dirname(HERE), 'replay', 'cases', '*.txt'))):
+        for line in open(f, encoding='utf-8'):
+            if ' ==> ' in line:
+                srcs.append(line.split(' ==> ')[0].strip())
+    for e in srcs:
+        toks = tok.findall(e)
+        if len(toks) > 40:
+            continue
+        cands = [e] + [' '.join(toks[:i] + toks[i + 1:]) for i in range(len(toks))] + [' '.join(toks[:i]) for i in range(1, len(toks))]
+        for c in cands:
+            if c and c not in seen:
+                seen.add(c)
+                out.append(c)
     return out
 
 
